@@ -143,6 +143,9 @@ func (x *VC) intBits(b *types.Basic) (int, bool) { // bits, signed
 }
 
 func isIntType(t types.Type) (*types.Basic, bool) {
+	if t == nil {
+		return nil, false
+	}
 	b, ok := t.Underlying().(*types.Basic)
 	if !ok {
 		return nil, false
@@ -446,7 +449,7 @@ func (x *VC) typeFacts(v *Val, st *State) {
 		x.fact(x.typeRange(v.T, v.GT))
 		return
 	}
-	if st != nil && x.noName == 0 {
+	if st != nil {
 		x.allocatedFact(v, st)
 	}
 	switch u := v.GT.Underlying().(type) {
